@@ -288,7 +288,7 @@ def inSt1 (regular : Bool) (st : InLoop) (h : Hdr) : InLoop :=
 /-- the command dispatch -/
 def inSt2 (st1 : InLoop) (h : Hdr) (body : Bytes) : InLoop :=
   if h.cmd.toNat = IKCP_CMD_ACK then
-    let k2 := parseAck st1.k h.sn
+    let k2 := shrinkBuf (parseAck st1.k h.sn)
     let pf := parseFastack k2 h.sn h.ts
     { st1 with k := pf.1, flushSeg := st1.flushSeg || pf.2, updRtt := true, latest := h.ts }
   else if h.cmd.toNat = IKCP_CMD_PUSH then
@@ -351,11 +351,17 @@ theorem SndSame.trans {a b c : Kcp} (h1 : SndSame a b) (h2 : SndSame b c) : SndS
   ⟨h2.conv.trans h1.conv, h2.mss.trans h1.mss, h2.stream.trans h1.stream, h2.snd_una.trans h1.snd_una,
    h2.snd_nxt.trans h1.snd_nxt, h2.snd_queue.trans h1.snd_queue, h2.snd_buf.trans h1.snd_buf⟩
 
+/-- `shrink_buf` (drop the acknowledged head segments, set `snd_una`) touches only `snd_buf`/`snd_una` -/
+theorem shrinkBuf_rcvSame (k : Kcp) : RcvSame k (shrinkBuf k) := by
+  unfold shrinkBuf
+  split <;> exact ⟨rfl, rfl, rfl, rfl⟩
+
 theorem inSt1_rcvSame (regular : Bool) (st : InLoop) (h : Hdr) : RcvSame st.k (inSt1 regular st h).k := by
-  unfold inSt1 shrinkBuf parseUna
+  unfold inSt1
   simp only []
-  repeat' split
-  all_goals exact ⟨rfl, rfl, rfl, rfl⟩
+  refine RcvSame.trans ?_ (shrinkBuf_rcvSame _)
+  unfold parseUna
+  split <;> exact ⟨rfl, rfl, rfl, rfl⟩
 
 theorem parseAck_rcvSame (k : Kcp) (sn : U32) : RcvSame k (parseAck k sn) := by
   unfold parseAck; split <;> exact ⟨rfl, rfl, rfl, rfl⟩
@@ -449,7 +455,7 @@ theorem inSt2_conv (st1 : InLoop) (h : Hdr) (body : Bytes) : (inSt2 st1 h body).
   unfold inSt2
   simp only []
   split
-  · exact ((parseAck_rcvSame _ _).trans (parseFastack_rcvSame _ _ _)).conv
+  · exact (((parseAck_rcvSame _ _).trans (shrinkBuf_rcvSame _)).trans (parseFastack_rcvSame _ _ _)).conv
   · split
     · split
       · split
